@@ -172,6 +172,12 @@ theorem updatedCm_clean (inner : List (Chan × Option Chan)) (outer : List (Chan
   · exact avoid_pure _
   · exact avoid_bind (chanLookup_clean _ _) (fun _ _ => avoid_pure _)
 
+theorem avoid_intOrErr {E : Err → Prop} {e : Err} (x : Rat) (h : ¬ E e) : Avoid E (intOrErr x e) := by
+  unfold intOrErr
+  split
+  · exact avoid_ok _
+  · exact avoid_error h
+
 /-- structural decomposition of an `Avoid E (do …)` goal: binds, matches, pure results, literal errors outside the
 scope classes and the scope independent helpers are discharged; what remains are the scope reading steps.
 Expects `SubSc E` among the hypotheses. -/
@@ -180,6 +186,7 @@ macro "avoid_auto" : tactic => `(tactic| repeat' (first
   | exact avoid_ok _
   | assumption
   | (refine avoid_error (subSc_not ‹SubSc _› ?_); simp [Sc]; done)
+  | (refine avoid_intOrErr _ (subSc_not ‹SubSc _› ?_); simp [Sc]; done)
   | exact clean_avoid ‹SubSc _› (chanLookup_clean _ _)
   | exact clean_avoid ‹SubSc _› (constFromMapping_clean _ _)
   | exact clean_avoid ‹SubSc _› (fromParallel_clean _)
